@@ -212,11 +212,11 @@ fn flatten_prog(prog: &Prog) -> Prog {
 fn assembler_for(prog: &Prog) -> Assembler {
     let mut asm = Assembler::default();
     if let Some(src) = prog.lib_source() {
-        let ast = ModuleAst::parse(&src).unwrap_or_else(|e| panic!("library module must parse: {e}\n{src}"));
+        let ast = ModuleAst::parse(&src).unwrap_or_else(|e| panic!("SUBJECT: library module must parse: {e}\n{src}"));
         let module = Module::new(LibraryPath::new("lib::m").unwrap(), ast);
         let lib = MaslLibrary::new(LibraryNamespace::new("lib").unwrap(), Version::default(), false, vec![module], vec![])
-            .expect("library");
-        asm = asm.with_library(&lib).expect("with_library");
+            .expect("SUBJECT: library must build");
+        asm = asm.with_library(&lib).expect("SUBJECT: with_library must succeed");
     }
     asm
 }
@@ -225,8 +225,8 @@ fn compile(prog: &Prog) -> processor::Program {
     let src = prog.to_source();
     match mcx::guard::catch(|| assembler_for(prog).compile(&src)) {
         Ok(Ok(p)) => p,
-        Ok(Err(e)) => panic!("family program must assemble: {e}\n{src}\n{:?}", prog.lib_source()),
-        Err(p) => panic!("assembler panicked: {p}\n{src}"),
+        Ok(Err(e)) => panic!("SUBJECT: family program must assemble: {e}\n{src}\n{:?}", prog.lib_source()),
+        Err(p) => panic!("SUBJECT: assembler panicked: {p}\n{src}"),
     }
 }
 
